@@ -37,7 +37,17 @@ MANIFEST = dict(
           "and in one it LACKS (then: result bound to one of the two operands' registries, never to a look-alike third; physical value; "
           "conversion by string as that registry's own table says), for mul, div, add, sub and the temperature rule that returns the "
           "second operand's unit; products of foreign-symbol operations are KEPT and converted by string again after every later step "
-          "that edits neither operand's registry. The violations this property is about are aliasing of dicts "
+          "that edits neither operand's registry. A table handed over BY REFERENCE (UnitRegistry(lut=donor.lut), both values of add_default_symbols) "
+          "from 11 kinds of donor (fresh, cgs, only read, written, copy of the default registry, deepcopy of a registry / of default-bound data, "
+          "Unit.copy(deep), unpickled, from JSON, lut=dict copy) is operated on next to an independent registry: donor and receiver share by the "
+          "user's doing, nobody else may notice. Two further witnesses of the built-in table are compared row by row after EVERY step of EVERY "
+          "history: a pristine registry created first and never written to or read, and a registry created NOW (what a new UnitRegistry() starts "
+          "with). Every copying/restoring route (deepcopy, copy.copy, Unit.copy(deep), deepcopy of an array, JSON, pickle of a quantity / stock-unit "
+          "array / Unit / tuple / quantity written in the registry's own symbols) is ALSO applied in the middle of a history (step derive) and at "
+          "setup: the registry obtained must hold the rows of its source whatever the other registries - the default one included - hold at that "
+          "moment, and is edited before the next route runs (a memoised restore is seen); configuration `collide` gives a custom registry and, "
+          "through the default step, the default registry the SAME symbol with the SAME definition (equal rows in two registries). "
+          "The violations this property is about are aliasing of dicts "
           "and memo keys that forget the registry, i.e. discrete facts: the interleavings are enumerated, the solver's share is that "
           "digests are compared as terms (a write or a memo hit that stores a different symbol is seen even where a test would store an equal number)."),
     design="DESIGN.md section 4 C13",
@@ -58,10 +68,19 @@ EXPLANATION = (
     "whichever the history provides); obligations bound-to-left (known symbol, additive ops), bound-to-an-operand's-registry (foreign symbol, "
     "temperature difference + point), SI magnitude of the result = product/quotient/sum of the operands' own SI magnitudes, conversion by "
     "string = what the result registry's raw rows say; kept products re-converted after later steps. The literal demand 'left operand's "
-    "registry' on the foreign-symbol axis is made by the three cases C13/foreign-left/* (unyt answers from the right operand's registry there: recorded finding)."
+    "registry' on the foreign-symbol axis is made by the three cases C13/foreign-left/* (unyt answers from the right operand's registry there: recorded finding). "
+    "(5) built-in table witnesses: same_table(initial, now) for the table of a pristine registry and for the table of a registry created at the "
+    "observation (no new row at all there), after setup and after every step; in the from-default and lut=-by-reference worlds both are digested in "
+    "full (own-table) too. (6) restore is a function of its source: for every route of step derive and every copy route at setup, rows(restored) == "
+    "rows(source) in both directions (derived prefixed rows tolerated) + six raw lookups answered as the SOURCE's table says; the restored registry is "
+    "then edited before the next route. The default step defines xqq on the default registry: with a symbolic scale, or - where a registry of the "
+    "world already holds xqq (configuration collide) - with that registry's very definition."
 )
 BOUNDS = {
-    "quick": "8 configurations whose source is the DEFAULT registry (deepcopy tuple / units / quantity+array, Unit.copy(deep) twice, pickle tuple / Unit+array, JSON twice, "
+    "quick": "22 lut=-by-reference configurations (11 donors x add_default_symbols) next to an independent registry: every single operation (length 1), ALL "
+             "interleavings of length <= 2 for two of them; 6 collide configurations (pickle, JSON, deepcopy, pickle tuple, pickle Unit+quantity, JSON twice; 12-operation "
+             "alphabet incl. derive@B), ALL interleavings of length <= 2; step derive applies 4 copy routes (+ 5-8 JSON/pickle routes where the registry is serialisable); "
+             "pristine-registry and new-registry table comparison after every step of every case. Further: 8 configurations whose source is the DEFAULT registry (deepcopy tuple / units / quantity+array, Unit.copy(deep) twice, pickle tuple / Unit+array, JSON twice, "
              "copy.copy twice), ALL interleavings of length <= 2 each; 3 foreign-left cases; mixed step: every ordered pair over operated + watched + default registries "
              "(watched x watched skipped; a pair with a watched registry runs mul(/div) + one additive or the temperature rule, one spelling of the right operand, "
              "SI-magnitude obligation for mul only - cut for wall time); add_new = reg.add + define_unit(registry=reg); modify edits xfoo, g and xbar. Further: "
@@ -70,12 +89,15 @@ BOUNDS = {
              "restored/copied together from one watched source: 5 one-dump pickle forms, loads twice, JSON twice, deepcopy of tuple / of units / of [S, S], copy twice, Unit.copy(deep) twice, "
              "lut copy twice) and 3 configurations with a registry that redefines 'm', ALL interleavings of length <= 2 each; probe set of 18 strings (15 also through reg[s] and `in`) + 4 "
              "fresh spellings per registry and observation round + raw rows; unyt namespace: 24 names",
-    "thorough": "15 default-source configurations (length <= 3 for deepcopy tuple and pickle Unit+array, <= 2 for the other thirteen); 3 foreign-left cases; mixed step as in quick; warm variants (history axis) only of cases with <= 300 interleavings. Further: "
+    "thorough": "22 lut=-by-reference + 6 collide configurations, ALL interleavings of length <= 2; 15 default-source configurations (length <= 3 for deepcopy tuple and pickle Unit+array, <= 2 for the other thirteen); 3 foreign-left cases; mixed step as in quick; warm variants (history axis) only of cases with <= 300 interleavings. Further: "
                 "12 two-registry configurations + 3 three-registry configurations (15 operations, length <= 3); ALL interleavings of length <= 4 for the four configurations "
                 "{independent, deepcopy, Unit.copy() shallow, unpickled} (cut from 'all twelve' to meet the 15 min budget), <= 3 for the other eight; 16 sibling + 3 redefined-'m' "
                 "configurations: length <= 3 for six of them (pickle tuple, pickle Unit+array, JSON twice, deepcopy tuple, copy twice, redefined 'm' next to an independent registry), <= 2 for the other thirteen",
 }
-OUTSIDE = ("interleavings longer than the bound; HDF5 (h5py absent); registries deliberately sharing a dict passed by the user (lut=other.lut); "
+OUTSIDE = ("interleavings longer than the bound; HDF5 (h5py absent); what two registries deliberately sharing a dict passed by the user (lut=other.lut) see of EACH OTHER "
+           "(the donor is not observed after the hand-over; everybody else is); lut= by reference of the default registry's own table; a restore of a registry "
+           "that lacks stock symbols (unpickling / from_json fill them in again: content of a copy, C11); equal-definition collisions with symbolic scales (a symbolic real "
+           "cannot be pickled: the collide configurations are concrete, 1.75 m); "
            "threads; the content of a copy relative to its original (C11); scales of JSON/pickle sources are concrete (a symbolic real "
            "cannot be serialised), the edit values stay symbolic; more than two siblings per dump (three objects are pickled in the nested form, two of them used); "
            "process-wide state that survives from one explored path to the next other than unyt's lru_caches (the runner clears only those: on a tree with such a "
@@ -90,6 +112,7 @@ ASSUMPTIONS = [
     "C13: scales of registries that are sources of a JSON or pickle round trip are concrete (2.0, 3.0); values written by later edits are symbolic",
     "C13: trailing blanks do not change the meaning of a unit string ('kxfoo  ' is 'kxfoo'): the fresh spelling of observation round n is the probe string followed by n+1 blanks, a distinct key for every string-keyed cache",
     "C13: a registry obtained from default-bound data by deepcopy / Unit.copy(deep=True) / pickle / JSON / copy.copy / lut=dict(...) is a custom registry in the sense of the property (an object of its own); only the shallow Unit.copy() may hand back the default registry itself",
+    "C13: a registry restored or copied from data of registry S (any route) is required to hold exactly the rows of S at that moment (plus derived SI-prefixed rows): this is how 'what the restore yields depends on S alone, not on what was done to other registries' is stated",
     "C13: one pickle.dumps / one copy.deepcopy of a container may restore ONE registry object for several members (it mirrors the sharing of the source); two separate loads / from_json / copy calls must give two registry objects",
 ]
 XNEW, XQQ, XDU = "xnew", "xqq", "xdu"  # xdu: the symbol every add_new step ALSO defines through define_unit(..., registry=T)
@@ -310,6 +333,10 @@ def own_table(d):
     return conj(conds)
 
 
+def table_diff(l0, l1):
+    return str([(k, l0.get(k, "-"), l1.get(k, "-")) for k in sorted(set(l0) | set(l1)) if repr(l0.get(k)) != repr(l1.get(k))][:6])[:500]
+
+
 def own_table_diff(d):
     out = []
     for s in RAW_STRINGS:
@@ -372,6 +399,18 @@ def scale(ctx, name, symbolic, default):
 def make_A(ctx, kind, symbolic):
     unyt, UR, D = ctx.mods["unyt"], ctx.mods["UR"], ctx.mods["unyt"].dimensions
     s, b = scale(ctx, "sA", symbolic, 2.0), scale(ctx, "bA", symbolic, 3.0)
+    if kind.startswith("ref"):
+        # the table of a DONOR registry handed over BY REFERENCE (UnitRegistry(lut=donor.lut, ...), how yt builds the registry of a
+        # derived dataset). Donor and receiver share one dict by the user's own doing (the donor is not observed any more); nobody
+        # else may notice: the default registry, a pristine registry, a registry created later, the namespace
+        head, _, donor_kind = kind.partition("_")
+        donor = REF_DONORS[donor_kind](ctx)
+        reg = UR.UnitRegistry(lut=donor.lut, add_default_symbols=(head == "refd"))
+        ctx.require("lut= by reference: the receiver uses the table it was given", reg.lut is donor.lut)
+        reg._c13_donor = donor  # kept alive
+        reg.add(FOO, s, D.length, prefixable=True)
+        reg.add(BAR, b, D.time)
+        return reg
     if kind == "lut":
         tex = lambda n: r"\rm{" + n + "}"  # noqa: E731
         lut = {FOO: (s, D.length, 0.0, tex(FOO), True), BAR: (b, D.time, 0.0, tex(BAR), False)}
@@ -384,9 +423,45 @@ def make_A(ctx, kind, symbolic):
         reg = UR.UnitRegistry()
     reg.add(FOO, s, D.length, prefixable=True)
     reg.add(BAR, b, D.time)
+    if kind == "collide":
+        # the registry holds a symbol that the `default` step will ALSO give the default registry - same spelling, same definition
+        # (the same define_unit call): a row of one registry that equals a row of another is still a row of its own
+        unyt.define_unit(XQQ, (COLLIDE_VALUE, "m"), prefixable=True, registry=reg)
     if kind == "modm":  # a registry that disagrees with every other one (and with the default one) about a prefixable STOCK symbol
         reg.modify("m", scale(ctx, "mA", symbolic, 2.5))
     return reg
+
+
+COLLIDE_VALUE = 1.75
+
+
+def _read_only_use(reg, unyt):
+    unyt.Unit("km", registry=reg)
+    unyt.unyt_quantity(1.0, "mg", registry=reg).to("kg")
+    reg["cm"], ("Ms" in reg)
+    return reg
+
+
+def _written(ctx, reg):
+    reg.add("xwr", ctx.real("wD", pos=True), ctx.mods["unyt"].dimensions.mass)
+    return reg
+
+
+# donors of a table handed over by reference: every way to come by a registry that nobody has WRITTEN to (a copy-on-write or
+# otherwise lazily shared table is still shared at that point), one that was only read, and one that was written
+REF_DONORS = {
+    "fresh": lambda ctx: ctx.mods["UR"].UnitRegistry(),
+    "cgs": lambda ctx: ctx.mods["UR"].UnitRegistry(unit_system="cgs"),
+    "read": lambda ctx: _read_only_use(ctx.mods["UR"].UnitRegistry(), ctx.mods["unyt"]),
+    "written": lambda ctx: _written(ctx, ctx.mods["UR"].UnitRegistry()),
+    "copydefault": lambda ctx: copy.copy(ctx.mods["UR"].default_unit_registry),
+    "deepcopyreg": lambda ctx: copy.deepcopy(ctx.mods["UR"].UnitRegistry()),
+    "deepcopyqty": lambda ctx: copy.deepcopy(ctx.mods["unyt"].unyt_quantity(1.0, "km")).units.registry,
+    "unitcopydeep": lambda ctx: ctx.mods["unyt"].Unit("km").copy(deep=True).registry,
+    "pickleqty": lambda ctx: pickle.loads(pickle.dumps(ctx.mods["unyt"].unyt_array([1.0, 2.0], "km/s"))).units.registry,
+    "jsondefault": lambda ctx: ctx.mods["UR"].UnitRegistry.from_json(ctx.mods["UR"].default_unit_registry.to_json()),
+    "lutcopy": lambda ctx: ctx.mods["UR"].UnitRegistry(lut=dict(ctx.mods["UR"].default_unit_registry.lut), add_default_symbols=False),
+}
 
 
 # ------------------------------------------------------------------------------------ registries born together
@@ -547,10 +622,18 @@ class World:
         self.D = self.unyt.dimensions
         self.DEF = ctx.mods["UR"].default_unit_registry
         kindA, howB = config[0], config[1]
-        concrete = howB in SERIALISED
+        concrete = howB in SERIALISED or kindA == "collide"
         # what the library's default registry and the unyt namespace hold BEFORE any registry of this history exists: creating,
         # copying, restoring and furnishing the custom registries below must leave both as they are
         lut0, ns0 = dict(self.DEF.lut), ns_digest(self.unyt, conversions=False)
+        UR = ctx.mods["UR"]
+        # two more witnesses of the library's built-in table: a PRISTINE registry (created now, never written to, never asked anything)
+        # and a registry created LATER (a new one at every observation round). Their tables are compared row by row after every step
+        # in every world; in the worlds about default-bound data and handed-over tables both are digested in full as well
+        self.pri = UR.UnitRegistry()
+        self.pri0, self.new0 = dict(self.pri.lut), dict(UR.UnitRegistry().lut)
+        self.full_extra = kindA == "default" or kindA.startswith("ref")
+        self.silent = [("PRI", self.pri)] if self.full_extra else []  # observed like the watched ones, but no operand of mixed operations
         self.watch = []  # registries that are observed like all others but never operated on
         self.kept = []  # results of mixed-registry operations, observed again after later steps
         if kindA == "default":
@@ -561,6 +644,7 @@ class World:
                         and no_shared_table([self.DEF, a, b]))
             if howB not in ONE_OPERATION:
                 ctx.require("siblings: separate restores give separate registries", a is not b)
+            self.copy_says_source("from-default", self.DEF, (a, b))
             if a is b:
                 b = copy.deepcopy(a)
             furnish(ctx, a, "A", ())
@@ -572,13 +656,17 @@ class World:
             ctx.require("siblings: one registry object or no shared table", no_shared_table([A, a, b]))
             if howB not in ONE_OPERATION:  # two separate restores / copies: two registries (one operation may mirror the source's sharing)
                 ctx.require("siblings: separate restores give separate registries", a is not b and a is not A and b is not A)
+            self.copy_says_source(howB, A, (a, b))
             if a is b:
                 b = copy.deepcopy(A)  # one registry under two names: the interleaving continues with an independent second registry
             self.regs = [R("A", a, not concrete), R("B", b, not concrete)]
             self.watch.append(("SRC", A))
         else:
             A = make_A(ctx, kindA, not concrete)
-            self.regs = [R("A", A, not concrete), R("B", make_B(ctx, howB, A, "B", (A,)), not concrete or howB.startswith("indep"))]
+            B = make_B(ctx, howB, A, "B", (A,))
+            if not howB.startswith("indep") and howB not in ("copy_default", "lut_copy"):
+                self.copy_says_source(howB, A, (B,))
+            self.regs = [R("A", A, not concrete), R("B", B, not concrete or howB.startswith("indep"))]
             if len(config) > 2:
                 self.regs.append(R("C", make_B(ctx, config[2], A, "C", (A, self.regs[1].reg)), True))
         self.watch.append(("DEF", self.DEF))
@@ -590,14 +678,34 @@ class World:
         req(ctx, "untouched:DEF/after-setup", same_table(lut0, self.dg["DEF"].lut), lambda: self.info(
             changed=str([k for k in set(lut0) | set(self.DEF.lut) if lut0.get(k) is not self.DEF.lut.get(k)])[:300]))
         req(ctx, "untouched:unyt-namespace/after-setup", all(self.ns[k] == v for k, v in ns0.items()), lambda: self.info(changed=ns_diff(ns0, self.ns)))
+        self.check_builtin_witnesses("setup")
+
+    def copy_says_source(self, how, src, copies):
+        """a registry obtained from `src` by a copying / restoring route holds the rows of `src` - whatever other registries (the
+        default one included) hold at that moment"""
+        for c in copies:
+            if c is not src:
+                req(self.ctx, "copy-route: the new registry holds the rows of its source", conj([same_table(src.lut, c.lut), same_table(c.lut, src.lut)]),
+                    lambda c=c: self.info(route=how, differs=table_diff(src.lut, c.lut)))
+
+    def check_builtin_witnesses(self, op):
+        """the pristine registry's table and the table a registry created NOW starts with are what they were at the beginning"""
+        ctx = self.ctx
+        req(ctx, f"untouched:pristine-registry-table/after-{op}", same_table(self.pri0, self.pri.lut), lambda: self.info(changed=table_diff(self.pri0, self.pri.lut)))
+        fresh = ctx.mods["UR"].UnitRegistry()
+        req(ctx, f"untouched:newly-created-registry-table/after-{op}", conj([len(fresh.lut) == len(self.new0), same_table(self.new0, fresh.lut)]),
+            lambda: self.info(changed=table_diff(self.new0, fresh.lut)))
+        if self.full_extra:
+            d = digest(self.unyt, fresh, self.rnd)
+            req(ctx, f"own-table:NEW/after-{op}", own_table(d), lambda: self.info(wrong=own_table_diff(d)))
 
     def roles(self, first=()):
         """observation order: the registries named in `first` (the ones just operated on), then all others"""
-        names = [r.role for r in self.regs] + [w[0] for w in self.watch]
+        names = [r.role for r in self.regs] + [w[0] for w in self.watch + self.silent]
         return [n for n in names if n in first] + [n for n in names if n not in first]
 
     def registry_of(self, role):
-        for w in self.watch:
+        for w in self.watch + self.silent:
             if w[0] == role:
                 return w[1]
         return self.by_role(role).reg
@@ -641,6 +749,7 @@ class World:
             r = call(lambda k=k: k["q"].to(k["to"]))
             req(ctx, f"kept:{k['label']}/after-{op}", conj([r[0] == "ok", r[0] != "ok" or eq(payload(r[1])[0], k["was"])]),
                 lambda r=r, k=k: self.info(product=k["label"], to=k["to"], got=Lazy(lambda: repr(r[1])[:160]), was=Lazy(lambda: repr(k["was"])[:120])))
+        self.check_builtin_witnesses(op)
         ns = ns_digest(self.unyt)
         if "NS" not in touched:
             req(ctx, f"untouched:unyt-namespace/after-{op}", ns == self.ns, lambda: self.info(changed=ns_diff(self.ns, ns)))
@@ -729,13 +838,33 @@ class World:
         ns = {}
         call(lambda: [ns.__setitem__(n, unyt.Unit(n, registry=T)) for n in (FOO, "k" + FOO, "km", "erg")])
         v = ctx.real(f"v{i}", pos=True)
-        derived = []
-        derived.append(call(copy.deepcopy, T))
-        derived.append(call(lambda: unyt.Unit(FOO, registry=T).copy(deep=True).registry))
+        # every copying / restoring route applied to data of T NOW, whatever happened to other registries before: (route, symbols the
+        # data are written in, thunk). The registry obtained must hold the rows of T (a restore is a function of its source alone)
+        routes = [("deepcopy", (), lambda: copy.deepcopy(T)), ("copy", (), lambda: copy.copy(T)),
+                  ("unit-copy-deep", (FOO,), lambda: unyt.Unit(FOO, registry=T).copy(deep=True).registry),
+                  ("deepcopy-array", (FOO, BAR), lambda: copy.deepcopy(unyt.unyt_array([1.0, 2.0], f"k{FOO}/{BAR}", registry=T)).units.registry)]
         if not r.symbolic:
-            derived.append(call(lambda: ctx.mods["UR"].UnitRegistry.from_json(T.to_json())))
-            derived.append(call(lambda: pickle.loads(pickle.dumps(unyt.unyt_quantity(1.5, "k" + FOO, registry=T))).units.registry))
-        for d in derived:
+            UR = ctx.mods["UR"]
+            routes += [("json", (), lambda: UR.UnitRegistry.from_json(T.to_json())),
+                       ("pickle-quantity", (FOO,), lambda: pickle.loads(pickle.dumps(unyt.unyt_quantity(1.5, "k" + FOO, registry=T))).units.registry),
+                       ("pickle-stock-array", ("m", "s"), lambda: pickle.loads(pickle.dumps(unyt.unyt_array([1.0, 2.0], "km/s", registry=T))).units.registry),
+                       ("pickle-unit", (FOO,), lambda: pickle.loads(pickle.dumps(unyt.Unit("k" + FOO, registry=T))).registry),
+                       ("pickle-tuple", (FOO, BAR), lambda: pickle.loads(pickle.dumps((unyt.unyt_quantity(1.5, BAR, registry=T), unyt.Unit(FOO, registry=T))))[1].registry)]
+            for own in (XQQ, XNEW, XDU):  # data written in a symbol of the registry's own that another registry may hold as well
+                routes.append((f"pickle-quantity-in-{own}", (own,), lambda own=own: pickle.loads(pickle.dumps(unyt.unyt_quantity(2.5, "k" + own, registry=T))).units.registry))
+        derived = []
+        for route, needs, thunk in routes:
+            if not all(n in T.lut for n in needs):
+                continue  # the history removed a symbol the data would be written in
+            d = call(thunk)
+            derived.append(d)
+            ok = d[0] == "ok" and d[1] is not T
+            req(ctx, f"restored:{route}/a-registry-holding-the-rows-of-its-source",
+                ok and conj([same_table(T.lut, d[1].lut), same_table(d[1].lut, T.lut)]
+                            + [answer_is(raw_lookup(d[1], ps), table_answer(T.lut, ps)) for ps in (FOO, "k" + FOO, XQQ, "k" + XQQ, "M" + XNEW, "km")]),
+                lambda d=d: self.info(source=r.role, got=repr(d[1])[:120] if d[0] == "raise" else table_diff(T.lut, d[1].lut)))
+            # ... and is edited at once, BEFORE the next route restores: two routes (or the same route in a later derive step) handing
+            # out one memoised registry or table show up as a restored registry that no longer holds the rows of its source
             if d[0] == "ok":
                 call(d[1].modify, FOO, v)
                 call(d[1].add, XNEW, v, self.D.mass, prefixable=True)
@@ -853,7 +982,10 @@ class World:
         # the sanctioned way to change the default registry; every other registry must not notice
         if XQQ not in DEF.lut:
             self.dirty_default = True
-            r = call(unyt.define_unit, XQQ, (ctx.real(f"q{i}", pos=True), "m"), prefixable=True)
+            # a registry of the world may hold the same symbol already (configuration `collide`): then the default registry is given
+            # the very same definition (equal rows in two registries); otherwise a symbolic one
+            held = [x.reg.lut[XQQ][0] for x in self.regs if XQQ in x.reg.lut and not isinstance(x.reg.lut[XQQ][0], SymReal)]
+            r = call(unyt.define_unit, XQQ, (COLLIDE_VALUE if held else ctx.real(f"q{i}", pos=True), "m"), prefixable=True)
             req(ctx, "default-registry/define_unit/accepted", r[0] == "ok" and XQQ in DEF.lut and hasattr(unyt, XQQ), lambda: self.info(got=repr(r[1])))
             call(unyt.Unit, "k" + XQQ)
 
@@ -906,7 +1038,7 @@ def make_foreign_case(left):
 def alphabet(config):
     roles = ["A", "B", "C"][:len(config)]
     ops = [f"{e}@{r}" for r in roles for e in EDITS]
-    return ops + ["derive@A", "mixed", "default"]
+    return ops + ["derive@A", "mixed", "default"] + (["derive@B"] if config[0] == "collide" else [])
 
 
 def make_case(config, prefix, nmax):
@@ -974,8 +1106,15 @@ FROM_DEFAULT_QUICK_SKIP = [("default", h) for h in ("sib_pickle_nested", "sib_pi
 FROM_DEFAULT_LONG = [("default", "sib_deepcopy_tuple"), ("default", "sib_pickle_unit_qty")]
 
 
+# a table handed over by reference from every kind of donor (ref_: add_default_symbols=False, refd_: True), next to an independent registry
+REF = [(f"{h}_{d}", "indep_defaults") for d in REF_DONORS for h in ("ref", "refd")]
+REF_LONG = [("ref_fresh", "indep_defaults"), ("refd_pickleqty", "indep_defaults")]
+# a registry holding a symbol that the default registry is given too (same definition), and every copying / restoring route next to it
+COLLIDE = [("collide", h) for h in ("pickle", "json", "deepcopy", "sib_pickle_tuple", "sib_pickle_unit_qty", "sib_json_twice")]
+
+
 def cases(tier, mods):
-    check_names(mods, NAMES + [XDU])
+    check_names(mods, NAMES + [XDU, "xwr"])
     out = []
     if tier == "quick":
         plan = [(c, 3) for c in CONFIGS2 if c not in QUICK_SKIP]
@@ -996,6 +1135,9 @@ def cases(tier, mods):
                 out.append(make_case(config, (first,), 3))
         else:
             out.append(make_case(config, (), 2))
+    for config in REF + COLLIDE:
+        long = config in (REF_LONG + COLLIDE if tier == "quick" else REF + COLLIDE)
+        out.append(make_case(config, (), 2 if long else 1))
     out += [make_foreign_case(left) for left in ("default", "defaults", "cgs")]
     return out
 
